@@ -29,6 +29,11 @@ DSub == ObjectD("Subscription", <<>>, <<FieldD("tick", I, <<>>)>>)
 XQuery2 == Ext(ObjectD("Query", <<>>, <<FieldD("c", I, <<>>)>>))
 XE2 == Ext(EnumD("E", <<EV("T")>>))
 XIn2 == Ext(InputD("In", <<ArgD("h", I)>>))
+\* an extension that makes an existing object implement an interface: no type is added, only the relation changes
+XAImpl == Ext(ObjectD("A", <<"N">>, <<FieldD("name", S, <<>>)>>))
+\* an explicit schema block that names the query root only, while objects called Mutation / Subscription exist or arrive later
+DTop == ObjectD("Top", <<>>, <<FieldD("n", I, <<>>)>>)
+DSchemaTop == SchemaD(<<RootD("query", "Top")>>)
 
 Syntax == BaseDef("SYNTAX", "")
 ReadFault == BaseDef("READFAULT", "")
@@ -43,7 +48,8 @@ FInOut == InputD("I2", <<ArgD("a", Named("A"))>>)
 
 GoodDocs ==
   { <<DQuery, DA, DB, DN>>, <<DU1, DE, DIn>>, <<DMut>>, <<DTag, DDate>>, <<XQuery>>, <<XA>>, <<XE, XU>>, <<XIn>>,
-    <<DSchema>>, <<DSchemaQ>>, <<DE>>, <<DIn, DMut>>, <<DMut2>>, <<DSub>>, <<XQuery2, XE2>> }
+    <<DSchema>>, <<DSchemaQ>>, <<DE>>, <<DIn, DMut>>, <<DMut2>>, <<DSub>>, <<XQuery2, XE2>>,
+    <<XAImpl>>, <<DTop, DSchemaTop>> }
 BadDocs ==
   { <<Syntax>>, <<XQuery, Syntax>>, <<DSchemaQ, Syntax>>, <<DE, ReadFault>>, <<XE, ReadFault, XU>>,
     <<XE, FXNotFound>>, <<XQuery, FEmpty>>, <<DSchemaQ, FUndef>>, <<FDup>>, <<XIn, FXDupField>>, <<XQuery, FXKind>>,
